@@ -84,6 +84,7 @@ class Contract:
         self.none_raises = False
         self.ghosts = {}            # ghost variable name -> (Ty, init expr)
         self.owns_ = []             # heap locations that survive an await
+        self.locks_ = []            # expressions that denote an asyncio.Lock (`async with <expr>:` = await, then body)
         self.rely_ = []             # predicates assumed after every await
         self.yield_inv_ = []        # predicates asserted before every await
         self.verify_body = True
@@ -175,6 +176,10 @@ class Contract:
 
     def owns(self, *locs):
         self.owns_.extend(locs)
+        return self
+
+    def lock(self, *exprs):
+        self.locks_.extend(exprs)
         return self
 
     def rely(self, expr, label=None):
